@@ -19,7 +19,7 @@ func (prop) Rule() string {
 	return "node-lite histories (real localstore + chunkinfo + pinning + traversal + netstore + retrieval + API server, a second real node as peer): 1-3 initial uploads / cached files, " +
 		"then 6-16 ops: uploads (45 % pinned) of files with identical content, chunk-aligned prefixes, repeated chunks and directories sharing files; raw /bytes uploads (70 % pinned, not known to chunkinfo); " +
 		"files cached from the peer (pyramid exchange + full or partial fetch); pin/unpin through the API; collection runs `gc c` with capacity 0-8 (synchronous, until done); collection runs `gcr c trigger op target` in which a scripted operation (API pin / unpin of a file, read of one of its chunks under the file context) is executed " +
-		"inside the run's first DelFile call if that call is for the trigger file — i.e. after the run selected the candidate and before the deletion callback re-checks the dirty addresses — target = the candidate itself, a file sharing chunks with it, a later candidate or any file; read-back. " +
+		"inside the run's first DelFile call if that call is for the trigger file — i.e. after the run selected the candidate and before the deletion callback re-checks the dirty addresses — target = the candidate itself, a file sharing chunks with it, a later candidate or any file; in fixed cases `gcr2 c first second` (POST /pins of the first candidate inside the second DelFile call: after its callback, before the commit); read-back. " +
 		"Fixed regression histories for every known trigger first. After every op status and full symbolic dump (stored set, pin index, gc index, gcSize, pyramid refcounts, chunkinfo tables, state-store keys, pin list) are compared with the Lean model; " +
 		"the oracle compares the pin index before/after every run (for a run with a racing operation: before the run vs right before the operation, and right after the operation vs after the run) and checks Has for every pinned or uploaded chunk. Non-trivial: >=1 executed gc run with a non-empty gc index and >=1 pinned or uploaded chunk stored; distinct by op-list hash."
 }
@@ -48,6 +48,9 @@ var fixed = []core.Case{
 	{ID: "fix-race-unpin-pinned-candidate", NT: true, Ops: []string{"pup y/ABA 0", "pyr y/ABA", "fetch y/ABA 0 100", "pin y/ABA", "fetch y/ABA 0 010", "gcr 0 y/ABA unpin y/ABA -", "pins", "gc 0"}},
 	{ID: "fix-race-pin-uploaded-sharing", NT: true, Ops: []string{"up z/AB 0", "pup x/AB 0", "pyr x/AB", "fetch x/AB 0 11", "gcr 0 x/AB pin z/AB -", "read z/AB", "pins"}},
 	{ID: "fix-race-not-first-candidate", NT: true, Ops: []string{"pup w/c 0", "pyr w/c", "pup x/a 0", "pyr x/a", "gcr 0 x/a pin x/a -", "pins"}},
+	// trigger 5: POST /pins of a file after its callback decided the deletions and before the run's commit: pin entries stay, chunks go
+	{ID: "fix-race-pin-evicted-before-commit", NT: true, Ops: []string{"pup w/c 0", "pyr w/c", "pup x/a 0", "pyr x/a", "gcr2 0 w/c x/a", "pins", "read w/c", "unpin w/c"}},
+	{ID: "fix-race-pin-before-commit-not-armed", NT: true, Ops: []string{"pup w/c 0", "pyr w/c", "pup x/a 0", "pyr x/a", "gcr2 0 x/a w/c", "pins"}},
 	{ID: "fix-dir-pinned-cache-shares-file", NT: true, Ops: []string{"up p/a+q/b 1", "pup q/b+s/c 0", "pyr q/b+s/c", "fetch q/b+s/c 0 1", "fetch q/b+s/c 1 1", "gc 1", "read p/a+q/b"}},
 }
 
@@ -69,7 +72,7 @@ func nontrivial(ops []string) bool {
 	gc, stored, cached := false, false, false
 	for _, o := range ops {
 		switch {
-		case strings.HasPrefix(o, "gc "), strings.HasPrefix(o, "gcr "):
+		case strings.HasPrefix(o, "gc "), strings.HasPrefix(o, "gcr "), strings.HasPrefix(o, "gcr2 "):
 			gc = gc || cached || stored
 		case strings.HasPrefix(o, "up ") || strings.HasPrefix(o, "raw "):
 			stored = true
